@@ -52,7 +52,7 @@ def spec(name, mode="min", dom=None, **over):
 class Instance:
     """A DCOP built from a spec with symbolic (or replayed concrete) cost tables."""
 
-    def __init__(self, eng, sp, lo=-BIG, hi=BIG, entry_kinds=None, hard_value=None, kind_filter=None):
+    def __init__(self, eng, sp, lo=-BIG, hi=BIG, entry_kinds=None, hard_value=None, kind_filter=None, real=False):
         from pydcop.dcop.dcop import DCOP
         from pydcop.dcop.objects import Domain, Variable, VariableWithCostDict
         from pydcop.dcop.relations import NAryMatrixRelation
@@ -60,6 +60,7 @@ class Instance:
         self.eng = eng
         self.spec = sp
         self.kind_filter = kind_filter
+        self.real = real
         self.mode = sp["mode"]
         kind = sp.get("domain_kind", "int")
         self.domains = {}
@@ -111,6 +112,8 @@ class Instance:
         pins = self.spec.get("pins")
         if pins and name in pins:
             return self.eng.sym_int(name, pins[name], pins[name])
+        if self.real:
+            return self.eng.sym_real(name, lo, hi)
         return self.eng.sym_int(name, lo, hi)
 
     # -- oracle side ------------------------------------------------------------------------
